@@ -6,14 +6,19 @@ import (
 
 // vFollowerRoles are the roles that accept leader messages.
 func vFollowerOpts() vRaftOpts {
-	return vRaftOpts{shapes: vQuickShapes(), log: vLogOpts{maxPers: 1, maxWin: 2 + vTier(), ss: vTier() > 0},
-		roles: []State{follower, candidate, preVoteCandidate}, flags: true}
+	o := vRaftOpts{log: vLogOpts{maxPers: 1, maxWin: 2, noAppliedTo: true, allSaved: true}, roles: []State{follower, candidate}, flags: true,
+		pairs: [][2]uint64{{vS3, 1}, {vS3w, 3}, {vS4, 4}}}
+	if vTier() > 0 {
+		o = vRaftOpts{shapes: vQuickShapes(), log: vLogOpts{maxPers: 1, maxWin: 3, ss: true, shadow: true},
+			roles: []State{follower, candidate, preVoteCandidate}, flags: true}
+	}
+	return o
 }
 
 // vReplicateMsg builds a well-formed Replicate message: entries contiguous
 // from LogIndex+1, terms non-decreasing between LogTerm and Term.
 func vReplicateMsg(c vCluster, maxEnts int) pb.Message {
-	m := pb.Message{Type: pb.Replicate, To: c.self, From: vSender(c), Term: vU64("mterm"),
+	m := pb.Message{Type: pb.Replicate, To: c.self, From: vLeaderSender(c), Term: vU64("mterm"),
 		LogTerm: vU64("mlogterm"), LogIndex: vU64("mlogindex"), Commit: vU64("mcommit")}
 	vAssume(m.Term >= 1)
 	vAssume(m.Term < vMaxIdx)
@@ -37,7 +42,7 @@ func vReplicateMsg(c vCluster, maxEnts int) pb.Message {
 
 // C02: Replicate on any replica that accepts it. L1 (frame), L2 follower
 // append is the AppendEntries rule, L3 commit bounds.
-//vcheck: reach=accepted,rejected,conflict,done workers=16
+// vcheck: reach=accepted,rejected,conflict,done workers=16
 func VHarness_C02_Replicate() {
 	r, c := vRaft(vFollowerOpts())
 	p := vRecord(r)
@@ -102,11 +107,11 @@ func VHarness_C02_Replicate() {
 }
 
 // C02: Heartbeat only moves the commit index forward, to the advertised value.
-//vcheck: reach=done workers=8
+// vcheck: reach=done workers=8
 func VHarness_C02_Heartbeat() {
 	r, c := vRaft(vFollowerOpts())
 	p := vRecord(r)
-	m := pb.Message{Type: pb.Heartbeat, To: c.self, From: vSender(c), Term: vU64("mterm"), Commit: vU64("mcommit"),
+	m := pb.Message{Type: pb.Heartbeat, To: c.self, From: vLeaderSender(c), Term: vU64("mterm"), Commit: vU64("mcommit"),
 		Hint: vU64("hint"), HintHigh: vU64("hinthigh")}
 	vAssume(m.Term >= 1)
 	vAssume(m.Term < vMaxIdx)
@@ -130,7 +135,7 @@ func VHarness_C02_Heartbeat() {
 
 // C02/C08: InstallSnapshot: never moves commit backwards, installs index/term
 // of the snapshot, keeps a matching log.
-//vcheck: reach=restored,matched,stale,done workers=16
+// vcheck: reach=restored,matched,stale,done workers=16
 func VHarness_C02_InstallSnapshot() {
 	o := vFollowerOpts()
 	o.roles = []State{follower, candidate}
@@ -144,7 +149,7 @@ func VHarness_C02_InstallSnapshot() {
 	for _, id := range c.shape.voters {
 		ss.Membership.Addresses[id] = "a"
 	}
-	m := pb.Message{Type: pb.InstallSnapshot, To: c.self, From: vSender(c), Term: vU64("mterm"), Snapshot: ss}
+	m := pb.Message{Type: pb.InstallSnapshot, To: c.self, From: vLeaderSender(c), Term: vU64("mterm"), Snapshot: ss}
 	vAssume(m.Term >= ss.Term)
 	vAssume(m.Term < vMaxIdx)
 	vAssume(m.Term >= r.term) // lower-term messages: VHarness_C03_StaleTerm
@@ -172,13 +177,14 @@ func VHarness_C02_InstallSnapshot() {
 
 // C02/L4 (+C18 quorums): the leader commit rule on ReplicateResp, checked
 // against a quorum count made independently of raft.matched.
-//vcheck: reach=advanced,notadvanced,done workers=16
+// vcheck: reach=advanced,notadvanced,done workers=16
 func VHarness_C02_LeaderCommit() {
-	shapes := []int{vS3, vS3w, vS4}
+	o := vRaftOpts{pairs: [][2]uint64{{vS3, 1}, {vS3w, 1}, {vS4, 1}, {vS5w, 1}}, log: vLogOpts{maxPers: 1, maxWin: 2, noAppliedTo: true, allSaved: true},
+		roles: []State{leader}}
 	if vTier() > 0 {
-		shapes = []int{vS1, vS3, vS3w, vS4, vS5, vS5w}
+		o = vRaftOpts{shapes: []int{vS1, vS3, vS3w, vS4, vS5, vS5w}, log: vLogOpts{maxPers: 1, maxWin: 3}, roles: []State{leader}, flags: true}
 	}
-	r, c := vRaft(vRaftOpts{shapes: shapes, log: vLogOpts{maxPers: 1, maxWin: 2 + vTier()}, roles: []State{leader}, flags: true})
+	r, c := vRaft(o)
 	p := vRecord(r)
 	m := pb.Message{Type: pb.ReplicateResp, To: c.self, From: vSender(c), Term: r.term, LogIndex: vU64("ackindex"),
 		Reject: vBool("reject"), Hint: vU64("hint")}
